@@ -38,7 +38,7 @@ var unknownID = types.BlockID{Hash: common.BytesToHash([]byte("unknown-block-unk
 
 // byzVote signs a vote with validator b's key.
 func (w *World) byzVote(b int, valIdx uint32, t kproto.SignedMsgType, h uint64, round uint32, id types.BlockID, tag string) *Msg {
-	key := fmt.Sprintf("v|%d|%d|%d|%d|%s", b, t, h, round, blockKey(id))
+	key := fmt.Sprintf("v|%d|%d|%d|%d|%d|%s", b, valIdx, t, h, round, blockKey(id))
 	if m, ok := w.byzCache[key]; ok {
 		return m
 	}
@@ -352,6 +352,30 @@ func (w *World) byzMenu(r int) []*ByzAction {
 					}
 					m := w.byzVote(b, valIdx, t, h, round, id, tag)
 					out = append(out, &ByzAction{Kind: tag[4:], Label: fmt.Sprintf("%s:v%d:t%d:r%d:%s", tag, b, t, round, blockKey(id)), Msgs: []*Msg{m}})
+				}
+				// the adversary's own vote (its address, its signature) entered under the INDEX of every other validator but
+				// the receiver: the sign bytes do not cover the index, so only the index/address comparison keeps one
+				// signer from being counted once per slot (one action = all those slots, for a block, in the current round)
+				if round == rs.Round {
+					for _, id := range targets {
+						if id.IsZero() {
+							continue
+						}
+						var msgs []*Msg
+						for oi, ov := range rs.Validators.Validators {
+							if uint32(oi) == valIdx || ov.Address == w.Addrs[r] {
+								continue
+							}
+							if vs != nil && vs.GetByIndex(uint32(oi)) != nil {
+								continue
+							}
+							m := w.byzVote(b, uint32(oi), t, h, round, id, "byz-misindexed")
+							msgs = append(msgs, m)
+						}
+						if len(msgs) > 0 {
+							out = append(out, &ByzAction{Kind: "misindexed", Label: fmt.Sprintf("byz-misindexed:v%d:t%d:r%d:%s", b, t, round, blockKey(id)), Msgs: msgs})
+						}
+					}
 				}
 			}
 		}
